@@ -333,6 +333,24 @@ def check_resubmission_cap(ctx, ctl) -> None:
                "the controller resubmits when resubmissionAttempts() EQUALS the cap ('%s'): one more submission than documented - the exit that "
                "should be unrecoverable is retried, and if the next execution succeeds the component ends FINISHED and the stage is reported "
                "complete instead of failed" % txt, construct="resubmissionAttempts() < cap")
+    # the cap counts the failed submissions since the last SUCCESSFUL exit: the engine resets its counter on Success only (C12.R3's
+    # obligation, re-used) - reset by any exit other than SubmissionFailed, a restarted ResourceExhausted in between lets the sixth failed
+    # submission be resubmitted and the component can end FINISHED (seed C02-15)
+    from checks import c12 as _c12
+    from vlib.report import Ctx as _Ctx14
+    sub14 = _Ctx14("C12", ctx.tier, ctx.repo)
+    _c12.run(sub14)
+    n14 = 0
+    for o in sub14.obligations:
+        if o["rule"] == "C12.R3-counters" and "_resubmissionAttempts" in o["what"]:
+            o2 = dict(o)
+            o2["rule"] = rule
+            o2["what"] = "[%s] %s" % (o["rule"], o["what"]) + ("" if o["ok"] else
+                          " - the sixth failed submission since the last success is no longer the unrecoverable exit")
+            ctx.obligations.append(o2)
+            n14 += 1
+    ctx.functions_analysed |= sub14.functions_analysed
+    ctx.require(n14 >= 1, "anchor missing: the resubmission-counter obligations of C12.R3")
     caps = [a for f in ctl.functions.values() for a in source.walk_own(f) if isinstance(a, ast.Assign) and any(
         isinstance(t_, ast.Attribute) and t_.attr == "_max_resubmission_attempts" for t_ in a.targets)]
     for a in caps:
